@@ -651,6 +651,9 @@ func (zr *zpRunner) run(mi *msgInfo, v *V, class string, ops []string) {
 		if i := strings.IndexAny(out, ":"); i > 0 {
 			res = out[:i]
 		}
+		if strings.HasPrefix(res, "D") && !strings.HasPrefix(res, "D?") {
+			res = "D" // (the descriptor of a message of the set)
+		}
 		zr.o.count("miscop_" + w[0] + "_" + res)
 	}
 	zr.o.kase("REFLECTMISCRUN", []string{zr.si.id, strconv.Itoa(mi.idx), v.String(), strings.Join(ops, ";")}, strings.Join(raws, ";"))
@@ -703,6 +706,7 @@ func engineReflectMiscProg(cfg config, o *out) {
 	for _, si := range schemas {
 		o.raw("SCHEMA\t" + si.id + "\t=\t" + si.sexp())
 		r := newRng(cfg.seed, "reflectmiscprog/"+si.id)
+		full := map[int]bool{}
 		for _, mi := range si.roots() {
 			args := []string{si.id, fmt.Sprint(mi.idx)}
 			t, failure := zpTranslator(si, mi)
@@ -742,10 +746,16 @@ func engineReflectMiscProg(cfg config, o *out) {
 				o.kase("REFLECTMISCPROG", append(append([]string{}, args...), "all", "eqb"), "same")
 				o.kase("REFLECTMISCPROG", append(append([]string{}, args...), "ProtoMethods", "law"), "true")
 				o.count("types_fully_translated")
+				full[mi.idx] = true
 			}
 		}
 		zr := &zpRunner{o: o, si: si}
 		for _, mi := range si.roots() {
+			// (the interpreter runs on the translated text: a type with an untranslatable method is already a mismatch above)
+			if !full[mi.idx] {
+				o.count("miscrun_skipped_not_translated")
+				continue
+			}
 			zr.runs(cfg, mi, r)
 		}
 	}
